@@ -1,4 +1,4 @@
-"""C08 - diagnostic and housekeeping options never change what is parsed (tokenizer level; trees in the parser harness)."""
+"""C08 - diagnostic and housekeeping options never change what is parsed."""
 import os
 from . import core
 from .core import Run, WORK
@@ -8,7 +8,9 @@ RULE = ("Every base case is run under the option sets {exact_errors, discard_bom
         "one-piece default-options reference; TLC judges: tokens (errors dropped) = L0 Tokenize of the input with a "
         "U+FEFF removed iff discard_bom and it is the very first character of the stream; with discard_bom off the "
         "(token, line) sequence equals the reference.  exact_errors forces the character-at-a-time read path, so "
-        "this also compares the SIMD/bulk fast paths with the scalar path.")
+        "this also compares the SIMD/bulk fast paths with the scalar path.  Parser level: real parses under tokenizer and "
+        "tree-builder exact_errors, discard_bom off and drop_doctype are judged against the L0 tree builder (from their "
+        "tokens) and the L0 parser (from the raw input).")
 SPEC, CFG = "Trace_TokSched.tla", "Trace_TokSched.cfg"
 
 
@@ -25,6 +27,10 @@ def run(tier, seed, replay=None):
         src = os.path.join(WORK, "traces", "C08-replay-in.ndjson")
         with open(src, "w") as f:
             f.write("\n".join(lines) + "\n")
+        if meta.get("sub") == "parse":
+            r.gen_validate("replay", ["parse", "--replay", "--c02"], "Trace_Tree.tla", "Trace_Tree.cfg", 1, classify, core.count_lines,
+                           stdin_files=[src], also=[("Trace_Parse.tla", "Trace_Parse.cfg")])
+            return r.finish(RULE, write=False)
         r.gen_validate("replay", ["tok", "--replay", "--fields", "sched"], SPEC, CFG, 1, classify, count_refs, stdin_files=[src])
         return r.finish(RULE, write=False)
     quick = tier == "quick"
@@ -40,6 +46,16 @@ def run(tier, seed, replay=None):
                    classify, count_refs, case_key="group", timeout=3000)
     r.gen_validate("random", ["tok", "--mode", "random", "--n", 120 if quick else 4000, "--maxlen", 50, "--chunk", "some"] + F, SPEC, CFG, N,
                    classify, count_refs, case_key="group", timeout=3000)
-    r.assumptions = ["drop_doctype and the tree-builder options are covered by the parser harness (C02 traces)",
+    # parser level: every case under {tokenizer exact_errors, tree-builder exact_errors, discard_bom off, drop_doctype}: the
+    # tree must be the L0 parser's tree of the same input (a leading U+FEFF kept iff discard_bom is off; the doctype node
+    # absent iff drop_doctype) - so the options change nothing else
+    PT = [("Trace_Parse.tla", "Trace_Parse.cfg")]
+    r.gen_validate("tree-optsets-pairs", ["parse", "--c02", "--optsets", "--mode", "enum", "--k", 2, "--pieces", 7 if quick else 24],
+                   "Trace_Tree.tla", "Trace_Tree.cfg", N, classify, core.count_lines, timeout=5000, xmx="4g", also=PT)
+    r.gen_validate("tree-optsets-tables", ["parse", "--c02", "--optsets", "--mode", "tables", "--tables", os.path.join(core.ROOT, "gen", "c02_tables.json")],
+                   "Trace_Tree.tla", "Trace_Tree.cfg", N, classify, core.count_lines, timeout=5000, xmx="4g", also=PT if not quick else ())
+    r.gen_validate("tree-optsets-random", ["parse", "--c02", "--optsets", "--mode", "random", "--n", 500 if quick else 30000, "--maxpieces", 20],
+                   "Trace_Tree.tla", "Trace_Tree.cfg", N, classify, core.count_lines, timeout=5000, xmx="4g", also=PT)
+    r.assumptions = ["the XML tokenizer's options are judged in C15",
                      "profile = true prints a timing table on stdout; the harness writes its trace to a separate file"]
     return r.finish(RULE)
